@@ -303,7 +303,7 @@ def _neighbour_classes():
     standard ones, but decoding to nothing"""
     if not _NEIGHBOUR_CLASSES:
         from pymodbus.factory import ClientDecoder
-        for cls in getattr(ClientDecoder, '_ClientDecoder__function_table'):
+        for cls in list(getattr(ClientDecoder, '_ClientDecoder__function_table')) + list(getattr(ClientDecoder, '_ClientDecoder__sub_function_table')):
             ns = dict(decode=lambda self, data: setattr(self, 'neighbour_decoded', True),
                       __doc__='neighbour variant')
             _NEIGHBOUR_CLASSES.append(type('Neighbour' + cls.__name__, (cls,), ns))
